@@ -315,10 +315,22 @@ class Proj:
             own_start = ov.get("start", t.start)
             own_end = ov.get("end", t.end)
             fwd = (t.mode != "alap") if t.mode else True
+            # effort and allocation written on a container are inherited by the tasks below that have none of their own;
+            # a task flagged `milestone` has no work whatever it inherits
+            eff_i, alloc_i, alt_i = int(ov.get("effort", t.effort)), t.alloc, t.alt
+            x = t.parent
+            while x is not None:
+                if not eff_i and x.effort and "effort" not in ov:
+                    eff_i = int(x.effort)
+                if not alloc_i and x.alloc:
+                    alloc_i, alt_i = x.alloc, x.alt
+                x = x.parent
+            if t.milestone or t.kids:
+                eff_i = 0 if t.milestone else eff_i
             T.append({"name": self.full(t), "parent": tix[id(t.parent)] if t.parent else 0, "leaf": not t.kids,
-                      "seq": i + 1, "prio": prio if prio is not None else 500, "effort": int(ov.get("effort", t.effort)),
+                      "seq": i + 1, "prio": prio if prio is not None else 500, "effort": eff_i,
                       "effortExact": True, "milestone": bool(t.milestone), "other": False, "deps": deps,
-                      "alloc": [rix[id(r)] for r in t.alloc], "alt": [rix[id(r)] for r in t.alt],
+                      "alloc": [rix[id(r)] for r in alloc_i], "alt": [rix[id(r)] for r in alt_i],
                       "pin": self.secs(own_start) if own_start is not None else -1,
                       "inhStart": self.secs(inh) if (inh is not None and own_start is None) else -1,
                       "pinEnd": self.secs(own_end) if own_end is not None else -1,
@@ -782,8 +794,15 @@ def alap_profile(rng, n):
         rs = [p.add_res("r%d" % k, eff=rng.choice(["1", "1", "2", "0.5"])) for k in range(rng.randint(1, 2))]
         cont = p.add_task("c") if rng.random() < 0.4 else None
         if cont is not None:
-            cont.end = start + timedelta(days=rng.randint(10, 20), hours=rng.choice([12, 17]))
+            cont.end = start + timedelta(days=rng.randint(10, 20), hours=rng.choice([9, 12, 17]))
         ts = []
+        if cont is not None and rng.random() < 0.3:
+            # effort and allocation written on the container; a flagged milestone and a plain leaf below it inherit them
+            cont.effort = G * rng.randint(2, 9)
+            cont.alloc = [rng.choice(rs)]
+            ts.append(p.add_task("m", parent=cont, milestone=True, mode=None if proj_alap else "alap"))
+            if rng.random() < 0.5:
+                ts.append(p.add_task("inh", parent=cont, mode=None if proj_alap else "alap"))
         for k in range(rng.randint(2, 6)):
             r = rng.choice(rs)
             unit = rng.choice([G, G, G // 2, G // 4])
